@@ -13,6 +13,13 @@ import (
 )
 
 const semicolon = ";" // From grpcinterceptors.go in onos-lib-go
+const comma = ","     // separates the group names in ADMINGROUPS
+
+// HasIdentity tells whether the request metadata carries an authenticated identity
+// (the authentication interceptor of onos-lib-go adds these keys from the token's claims)
+func HasIdentity(md metautils.NiceMD) bool {
+	return md != nil && (md.Get("name") != "" || md.Get("preferred_username") != "" || md.Get("groups") != "")
+}
 
 // TemporaryEvaluate - simple evaluation of rules until OpenPolicyAgent is added
 // This is so that aether-config can be deployed to the cloud in 2021 Q1 with simple RBAC
@@ -21,10 +28,16 @@ const semicolon = ";" // From grpcinterceptors.go in onos-lib-go
 func TemporaryEvaluate(md metautils.NiceMD) error {
 	adminGroups := os.Getenv("ADMINGROUPS")
 	var match bool
+groups:
 	for _, g := range strings.Split(md.Get("groups"), semicolon) {
-		if strings.Contains(adminGroups, g) {
-			match = true
-			break
+		if g == "" {
+			continue
+		}
+		for _, adminGroup := range strings.Split(adminGroups, comma) {
+			if g == adminGroup {
+				match = true
+				break groups
+			}
 		}
 	}
 	if !match {
